@@ -320,3 +320,16 @@ K.unravel = _k_unravel
 K.ravel = _k_ravel
 K.at = _k_at
 K.shape = _k_shape
+
+
+def _k_absfunc(self, name, params, outputs=1, out_keys=None, ret="float"):
+    """uninterpreted function with the given signature (symbolic) / linear test function (native);
+    both expose .spec(values_by_name, output_index)"""
+    from .absfunc import AbsFunc, native_function
+
+    if self.mode == "native":
+        return native_function(name, params, outputs, out_keys)
+    return AbsFunc(name, params, outputs, out_keys, ret)
+
+
+K.absfunc = _k_absfunc
